@@ -70,8 +70,18 @@ def run(chk):
         base = {"QR": [int(i) for i in QR().fit(B).get_sensors()],
                 "CCQR": [int(i) for i in impl.quiet(CCQR(sensor_costs=costs.copy()).fit, B.copy()).get_sensors()]}
         Nn = int(rng.integers(1, k + 1))
-        L = sorted(rng.choice(n, size=int(rng.integers(1, n - Nn + 1)) if n - Nn >= 1 else 0, replace=False).tolist()) if n - Nn >= 1 else []
-        s = int(rng.integers(0, min(len(L), Nn) + 1))
+        # a region that contains several of the unconstrained top-N sensors, with an allowance below that count half of the time
+        top = base["QR"][:Nn]
+        ntop = int(rng.integers(1, Nn + 1))
+        L = set(int(x) for x in rng.choice(top, size=ntop, replace=False))
+        rest = [c for c in range(n) if c not in top]
+        for c in rest:
+            if rng.random() < 0.3 and len(L) < n - Nn:
+                L.add(c)
+        L = sorted(L)
+        s = int(rng.integers(0, ntop)) if rng.random() < 0.6 else int(rng.integers(0, min(len(L), Nn) + 1))
+        if not (s <= len(L) and Nn - s <= n - len(L)):
+            s = min(len(L), Nn)
         opt = ["max_n", "exact_n", "predetermined"][int(rng.integers(0, 3))]
         gk = dict(idx_constrained=np.array(L, dtype=int), n_sensors=Nn, n_const_sensors=s, constraint_option=opt)
         base["GQR"] = [int(i) for i in impl.quiet(GQR().fit, B.copy(), all_sensors=np.array(base["QR"]), **gk).get_sensors()]
@@ -102,7 +112,7 @@ def run(chk):
                          f"firstn {k} (ccqr_gram {n} {k} (cost_of_list {C.cqlist(cq)}) {G1}); firstn {k} (ccqr_gram {n} {k} (cost_of_list {C.cqlist(cq)}) {G2})]")
             meta.append((case, [base["QR"][:k], got["QR"][:k], base["CCQR"][:k], got["CCQR"][:k]], [ok_qr, ok_qr, ok_cc, ok_cc]))
         # ---------------- (2) positive rescaling
-        c = float(rng.choice([0.5, 4.0, 2.0 ** -20, 3.0, 0.375, 10.0]))
+        c = float(rng.choice([0.5, 4.0, 2.0 ** -20, 2.0 ** -36, 3.0, 0.375, 10.0]))
         got = {"QR": [int(i) for i in QR().fit(B * c).get_sensors()],
                "CCQR": [int(i) for i in impl.quiet(CCQR(sensor_costs=costs * c).fit, B * c).get_sensors()]}
         got["GQR"] = [int(i) for i in impl.quiet(GQR().fit, B * c, all_sensors=np.array(got["QR"]), **gk).get_sensors()]
